@@ -29,15 +29,15 @@ PROPS = {
                 assumptions=COMMON_ASSUME + KANI_ASSUME + ['ASSUMED uninterpreted models (verus/prelude_cmp.rs) of Ord::cmp on String / char, f64::partial_cmp, `==` on String / Vec<PathAwareValue> / MapValue, WithinRange::is_within, fancy_regex::Regex::{new, is_match}; is_match on a compiled expression is assumed not to fail (the repository comment says so)', 'PathAwareValue::type_info assumed (message text only)'],
                 not_under_contract=['regex engine (fancy_regex) - trusted', 'string comparison (lexicographic order): std, its Kani unit did not finish', 'compare_eq on lists / maps (iterator zip / IndexMap loops: outside the extractable subset; Kani cannot build IndexMap)', 'derived PartialEq of MapValue / Vec<PathAwareValue>', '`X in [v1..vn]` (operators.rs)'],
                 explanation=''),
-    'C01': dict(level='proof', vgroups=['eval', 'eval_blocks', 'eval_disp', 'index', 'memo', 'memo_block'],
+    'C01': dict(level='proof', vgroups=['eval', 'eval_blocks', 'eval_disp', 'cnf', 'index', 'memo', 'memo_block'],
                 kunits=['U-cnf', 'U-unary-special', 'U-unary-wiring', 'U-cmp-int', 'U-cmp-float', 'U-cmp-char-null-bool', 'U-cmp-types', 'U-within'],
                 kunits_quick=['U-cnf', 'U-cmp-int', 'U-within'],
                 assumptions=EVAL_ASSUME + KANI_ASSUME + MEMO_ASSUME,
-                level_text='whole-interpreter correctness is NOT claimed. Decided by contracts: clause = all/some aggregation of per-value results with the right polarity (U-gac), binary per-value layer (U-binop), named-rule / when / rule / file composition (Verus, unbounded); CNF combinator, unary truth tables, index retrieval, scalar comparison kernel, range membership, operator-level flip (Kani; complete over scalar domains, otherwise bounded as stated)',
+                level_text='whole-interpreter correctness is NOT claimed. Decided by contracts: clause = all/some aggregation of per-value results with the right polarity (U-gac), binary per-value layer (U-binop), named-rule / when / rule / file composition and the CNF combinator (Verus, unbounded; U-cnf-v proves it for every eval_fn obeying the clause contract); CNF combinator again, unary truth tables, index retrieval, scalar comparison kernel, range membership, operator-level flip (Kani; complete over scalar domains, otherwise bounded as stated)',
                 level_note='query traversal (keys, *, [*], filters, variables, key-case converters) and list flattening in operators.rs are NOT under contract: a change confined to query_retrieval_with_converter is not detected by this check',
                 not_under_contract=['query_retrieval_with_converter', 'operators.rs list-valued Eq/In', 'eval_guard_block_clause', 'eval_type_block_clause', 'key capture (add_variable_capture_key)', 'parser'],
                 explanation=''),
-    'C08': dict(level='proof', vgroups=['eval', 'eval_blocks', 'eval_disp', 'index', 'index2', 'tracker', 'tables', 'validate', 'validate_data', 'structured', 'failed', 'exit', 'status', 'merge', 'report'],
+    'C08': dict(level='proof', vgroups=['eval', 'eval_blocks', 'eval_disp', 'cnf', 'index', 'index2', 'tracker', 'tables', 'validate', 'validate_data', 'structured', 'failed', 'exit', 'status', 'merge', 'report'],
                 kunits=['U-substr', 'U-call', 'U-cnf', 'U-count', 'U-conv', 'U-join', 'U-expect', 'U-xr'],
                 kunits_quick=['U-substr', 'U-call'],
                 assumptions=EVAL_ASSUME + KANI_ASSUME,
@@ -50,14 +50,14 @@ PROPS = {
                 level_note='agreement of the test and validate loaders (serde_yaml vs libyaml), reporting of rules without expectation, and agreement of renderers are NOT decided',
                 not_under_contract=['StructuredTestReporter::evaluate / generic reporter (I/O)', 'test vs validate data loading', 'renderers'],
                 explanation='Bounded Kani proof of get_status_result (<= 3 records per rule name, all statuses, all expectations) against the parenthesis of the property statement; TestResult::get_exit_code bounded (<= 2 cases x <= 2 failed rules); test::get_exit_code complete (Verus unbounded + Kani). Both commands call the same eval_rules_file, which is visible in the source but not expressible as a function contract.'),
-    'C02': dict(level='proof', level_text='Verus proves, for all inputs and all lengths, that every record closed by rule/when/file/named-clause/clause evaluation carries the status returned to the caller and that this status is the documented function of the children statuses (record-tree ghost model)', level_note='assumed: EvalContext trait contract, CNF combinator contract (bounded Kani unit), query engine; termination not proved', vgroups=['eval', 'eval_blocks', 'eval_disp', 'tracker'], kunits=['U-cnf'], assumptions=EVAL_ASSUME,
-                not_under_contract=['query_retrieval_with_converter (Filter records)', 'RootScope::rule_status', 'RecordTracker (bounded only)'],
+    'C02': dict(level='proof', level_text='Verus proves, for all inputs and all lengths, that every record closed by rule/when/file/named-clause/clause evaluation carries the status returned to the caller and that this status is the documented function of the children statuses (record-tree ghost model)', level_note='assumed: EvalContext trait contract, query engine; the CNF combinator is proved for every eval_fn obeying the clause contract (U-cnf-v, closure specification) and additionally checked bounded on the real generic code by Kani (U-cnf); termination not proved', vgroups=['eval', 'eval_blocks', 'eval_disp', 'cnf', 'tracker'], kunits=['U-cnf'], assumptions=EVAL_ASSUME,
+                not_under_contract=['query_retrieval_with_converter (Filter records)'],
                 explanation=''),
     'C03': dict(level='proof', level_text='Verus proves that the polarity reaching the per-value layer is operator-not XOR prefix-not on both the unary and the binary path of the real eval_guard_access_clause, and the named-rule negation table', level_note='binary path: binary_operation is proved (U-binop) against the comparator contract cmp_sem, which stays assumed (operators.rs did not finish under Kani); unary path: unary_operation is an assumed callee contract in Verus, checked by the bounded Kani units U-unary-special (result-set branch) and U-unary-wiring (exists / is_*); the per-value `empty` path is not decided', vgroups=['eval'], kunits=['U-unary-special', 'U-unary-wiring'], assumptions=EVAL_ASSUME,
                 not_under_contract=['operators.rs list-valued In/Eq flip'], explanation=''),
-    'C04': dict(level='proof', vgroups=['status', 'eval', 'memo', 'memo_block'], kunits=['U-cnf'], assumptions=EVAL_ASSUME + MEMO_ASSUME,
-                level_text='order/repetition invariance is proved as lemmas over the aggregation spec functions (permutation = equal multisets, repetition = insertion of a copy; unbounded), composed with the conformance of the real aggregators to those spec functions (Verus unbounded for rule list / rule / when; Kani bounded for the CNF combinator)',
-                level_note='history dimension: the memo tables are under contract (RootScope::rule_status: first non-SKIP definition, memoised once, other entries untouched; Root/BlockScope::resolve_variable: literal wins, a memoised result is returned as stored, the first result is exactly what is memoised), assuming that the status of one rule definition does not depend on the memo state; key capture (add_variable_capture_key mutates a memoised entry by design) and that assumption itself are NOT decided; CNF conformance is bounded (3x3)',
+    'C04': dict(level='proof', vgroups=['status', 'eval', 'cnf', 'memo', 'memo_block'], kunits=['U-cnf'], assumptions=EVAL_ASSUME + MEMO_ASSUME,
+                level_text='order/repetition invariance is proved as lemmas over the aggregation spec functions (permutation = equal multisets, repetition = insertion of a copy; unbounded), composed with the conformance of the real aggregators to those spec functions (Verus unbounded for rule list / rule / when and, via U-cnf-v, for the CNF combinator itself with any number of lines and alternatives; Kani re-checks the combinator bounded)',
+                level_note='history dimension: the memo tables are under contract (RootScope::rule_status: first non-SKIP definition, memoised once, other entries untouched; Root/BlockScope::resolve_variable: literal wins, a memoised result is returned as stored, the first result is exactly what is memoised), assuming that the status of one rule definition does not depend on the memo state; key capture (add_variable_capture_key mutates a memoised entry by design) and that assumption itself are NOT decided',
                 not_under_contract=['add_variable_capture_key (key capture mutates memo entries)', 'state-independence of eval_rule / query_retrieval results (assumed: def_sem)', 'ValueScope delegation'], explanation=''),
     'C09': dict(level='proof', vgroups=['report', 'failed', 'status', 'eval'], kunits=[], assumptions=EVAL_ASSUME + [
                     'ASSUMED BTreeSet<String>/Vec::extend/HashMap::extend API models', 'group failed: Option::map_or / iterator expressions that build message payloads routed through assumed functions (verus/prelude_failed.rs, R10m); derived Clone / Default of report types structural; PathAwareValue::self_path opaque; termination of the recursion over the record tree not proved (exec_allows_no_decreases_clause)'],
